@@ -161,7 +161,7 @@ def _names(rng, k):
     while len(out) < k:
         style = rng.random()
         if style < 0.5: nm = '/' + '/'.join(''.join(rng.choice('abcdeXYZ_019 .') for _ in range(rng.randint(1, 8))) for _ in range(rng.randint(1, 3)))
-        elif style < 0.8: nm = '/' + ''.join(rng.choice('abéßñ中文あ\U0001f600\U00010348z-') for _ in range(rng.randint(1, 12)))
+        elif style < 0.8: nm = '/' + ''.join(rng.choice('abéßñ中文あ\U0001f600\U00010348z-\uf900\ufffd\ufb01\ufe4f\ud7ff\ue000\u07ff\u0800') for _ in range(rng.randint(1, 12)))
         elif style < 0.9: nm = ''.join(rng.choice('#$abc') for _ in range(rng.randint(2, 6)))
         else: nm = '/' + 'long' * rng.randint(10, 60) + str(rng.randint(0, 99))
         if nm.endswith('/') or nm.startswith('::') or nm.lower() in seen or len(nm.encode()) < 2: continue
